@@ -137,27 +137,29 @@ def canonStr (s : String) : String :=
   "s:\"" ++ String.ofList ((escapeLine s).toList.flatMap fun ch =>
     if ch = '"' then ['\\', 'q'] else if ch = ' ' then ['\\', '_'] else [ch]) ++ "\""
 
+/-- canonical rendering of a heap object; the first argument bounds the nesting of elements
+    (as the Rust `canon` does), the spine loop has its own fuel -/
 def canonH (h : Heap) : Nat → Ref → String
   | 0, _ => "#<deep>"
-  | fuel + 1, r =>
+  | n + 1, r =>
     match h.get r with
     | .nil => "nil"
     | .t => "t"
-    | .int n => toString n
+    | .int k => toString k
     | .float b => if f64IsNaN b then "f:nan" else "f:" ++ hex16 b
     | .str s => canonStr s
-    | .sym n => "y:" ++ String.ofList ((escapeLine n).toList.flatMap fun ch => if ch = ' ' then ['\\', '_'] else [ch])
-    | .cons a d => "(" ++ canonH h fuel a ++ rest h fuel d
+    | .sym nm => "y:" ++ String.ofList ((escapeLine nm).toList.flatMap fun ch => if ch = ' ' then ['\\', '_'] else [ch])
+    | .cons a d => "(" ++ canonH h n a ++ rest h n (h.cells.size + 2) d
 where
-  rest (h : Heap) : Nat → Ref → String
+  rest (h : Heap) (n : Nat) : Nat → Ref → String
     | 0, _ => ")"
     | fuel + 1, r =>
       match h.get r with
       | .nil => ")"
-      | .cons a d => " " ++ canonH h fuel a ++ rest h fuel d
-      | _ => " . " ++ canonH h fuel r ++ ")"
+      | .cons a d => " " ++ canonH h n a ++ rest h n fuel d
+      | _ => " . " ++ canonH h n r ++ ")"
 
-def showRef (s : State) (r : Ref) : String := canonH s.heap (s.heap.cells.size + 2) r
+def showRef (s : State) (r : Ref) : String := canonH s.heap 7 r
 
 def newHandle (s : State) (r : Ref) : State × String :=
   ({ s with handles := s.handles.push r }, "H " ++ toString s.handles.size)
